@@ -279,6 +279,8 @@ def raised_classes(fn, seen=None):
 
 
 def extra(rep, tier, seed, budget):
+    from bounded import integrate as _integ
+    _integ.system_histories(rep, tier, seed, ['C10_no_repeat'])
     from pyvc.cli import write_replay
     import bert_e.workflow.gitwaterflow as gwf
     from bert_e.reactor import Reactor
@@ -422,6 +424,9 @@ def replay_command_rerun(cls_name='ResetComplete'):
 
 
 def replay_file(data):
+    from bounded import integrate as _integ
+    if isinstance(data.get('case'), dict) and ('events' in data['case'] or 'fault' in data['case']):
+        return _integ.replay(data)
     if 'fact' in data and data.get('data', {}).get('class'):
         return replay_command_rerun(data['data']['class'])
     return None
